@@ -8,13 +8,27 @@ from units import U
 
 ID = 'C16'
 LEVEL = 'proof'
-TIE = {'threshold.py Absolute/Relative/AlternativeThresholds, bracketers': 'correspondence',
-       'openlist.ThresholdOpenList / ListOrderTieBreaker / Tie.break_by_list': 'correspondence',
-       'approval.QuotaSelector': 'correspondence (C09 stream reused)', 'component/quota.py': 'translator (C02)'}
+# translator ties (tools/py2v.py typed method translator): unit of Gen/STATUS.json -> the file proving generated = model.
+# A unit the translator rejects falls back to the correspondence streams below on a denser grid (run.py records it in
+# coverage.translator_fallback); a GenTie lemma that no longer checks is a broken obligation of C16 and widens the search.
+GEN_TIES = {'Threshold': 'Props/GenTie_Threshold.v', 'Approval': 'Props/GenTie_Approval.v', 'Openlist': 'Props/GenTie_Openlist.v'}
+TIE = {'threshold.py AbsoluteThreshold / RelativeThreshold evaluate (acceptance predicate and whole body), AlternativeThresholds (union)':
+           'translator (Gen/Threshold.v regenerated on every run; Props/GenTie_Threshold.v proves it equal to passes / sel_eval of '
+           'Model/Threshold.v) + correspondence',
+       'threshold.py CoalitionMemberBracketer.evaluate (whole body: member-count table, dispatch with default, membership filter)':
+           'translator (Gen/Threshold.v; GenTie_Threshold.v tie_coalition_evaluate: = bracket_eval for a votes dictionary) + correspondence',
+       'threshold.py PropertyBracketer (caching loop with hasattr / getattr), order of AlternativeThresholds': 'correspondence',
+       'approval.QuotaSelector quota comparison and over-quota dictionary': 'translator (Gen/Approval.v, Props/GenTie_Approval.v: = fulfills / '
+           'the filter of qsel_evaluate) + correspondence (quota-selector stream: C09 model unit, votes placed on the quota)',
+       'openlist.ThresholdOpenList jump threshold (fraction of the total, quota, max / min) and jump test (the jumping comprehension)':
+           'translator (Gen/Openlist.v, Props/GenTie_Openlist.v: = ol_threshold / ol_jumping) + correspondence',
+       'openlist.ThresholdOpenList constructor (quota_fraction wrapper), cut to n seats / list precedence / fill-up, ListOrderTieBreaker / Tie.break_by_list': 'correspondence',
+       'component/quota.py': 'translator (C02)'}
 RULE = ('corpus; threshold stream: Abs/Rel/Alternative (nested) with thresholds as Fraction/Decimal/int, vote totals built so that '
         'one candidate sits exactly on every threshold (e.g. 5 of 100 at 5 %), accept_equal both ways; bracketers by coalition size '
         'and by property with defaults/None; open lists of 1..8 members with every combination of jump_fraction, quota (name/callable), '
-        'quota_fraction, take_higher, accept_equal, list_precedence, 1<=n<=len; break_by_list through ListOrderTieBreaker(Plurality). '
+        'quota_fraction, take_higher, accept_equal, list_precedence, 1<=n<=len; break_by_list through ListOrderTieBreaker(Plurality); '
+        'quota selector: 7 named quotas x accept_equal x select/error with one (or two) candidates placed exactly on the computed quota. '
         'non-trivial = some candidate exactly on a threshold, or jumpers outnumber seats, or a tie to break; distinct by case hash')
 PARTIAL = []
 TRUSTED = []
@@ -333,14 +347,53 @@ def run_cases(ctx, stream, cases):
             ctx.differential(name, cs, ol_model_line, ol_impl, ol_canon, lambda c: True, spec=ol_spec)
         elif unit == 'break_by_list':
             ctx.differential(name, cs, bl_model_line, bl_impl, None, lambda c: any(isinstance(e, list) for e in c['elected']))
+        elif unit == 'quota_selector':
+            import props.c09 as c09
+            ctx.differential(name, cs, c09.qs_model_line, c09.qs_impl, c09.canon, on_quota)
+
+
+# ------------------------------------------------------------------ quota selector (model unit and encoding of C09)
+def gen_qsel_boundary(rng, count):
+    """QuotaSelector with one candidate exactly on the computed quota (where the quota is a whole number of votes)"""
+    import votelib.component.quota as vq
+    for _ in range(count):
+        m = rng.randint(1, 6)
+        ids = list(range(1, m + 1))
+        rng.shuffle(ids)
+        qi = rng.randint(1, 7)
+        n = rng.randint(1, m + 1)
+        total = rng.choice([60, 100, 120, 1000, 12 * 10 ** 20])
+        qv = Fraction(vq.get(QN[qi])(total, n))
+        votes, rest = [], total
+        for i, k in enumerate(ids):
+            if i == 0 and qv.denominator == 1 and 0 <= qv <= total and rng.random() < 0.85:
+                v = int(qv)
+            elif i == m - 1:
+                v = max(rest, 0)
+            else:
+                v = rng.randint(0, max(rest, 0))
+            rest -= v
+            votes.append([k, v])
+        if rng.random() < 0.3 and m > 1:
+            votes[1][1] = votes[0][1]             # a second candidate on the quota
+        yield dict(unit='quota_selector', quota=qi, ae=rng.random() < 0.5, select=rng.random() < 0.7, votes=votes, n=n)
+
+
+def on_quota(c):
+    import votelib.component.quota as vq
+    qv = Fraction(vq.get(QN[c['quota']])(sum(q(v) for _, v in c['votes']), c['n']))
+    return any(q(v) == qv for _, v in c['votes'])
 
 
 def explore(ctx, widen=1):
+    # a unit the translator rejected is tied by correspondence alone: denser grid (DESIGN.md 2.1)
+    dense = lambda unit: 4 if unit in ctx.fallback else 1      # noqa
     run_cases(ctx, 'corpus', corpus())
-    run_cases(ctx, 'thresholds', gen_thr(ctx.rng, ctx.n(2000, 30000) * widen))
+    run_cases(ctx, 'thresholds', gen_thr(ctx.rng, ctx.n(2000, 30000) * widen * dense('Threshold')))
     run_cases(ctx, 'bracketers', gen_br(ctx.rng, ctx.n(800, 10000) * widen))
-    run_cases(ctx, 'openlist', gen_ol(ctx.rng, ctx.n(2500, 40000) * widen))
+    run_cases(ctx, 'openlist', gen_ol(ctx.rng, ctx.n(2500, 40000) * widen * dense('Openlist')))
     run_cases(ctx, 'break-by-list', gen_bl(ctx.rng, ctx.n(500, 5000) * widen))
+    run_cases(ctx, 'quota-selector', gen_qsel_boundary(ctx.rng, ctx.n(800, 10000) * widen * dense('Approval')))
 
 
 def replay(ctx, case, stream=None):
